@@ -6,6 +6,7 @@ package gojarun
 import (
 	"fmt"
 	"runtime/debug"
+	"syscall"
 	"time"
 
 	"github.com/dop251/goja"
@@ -25,8 +26,20 @@ type Result struct {
 	PanicStack string
 }
 
+// cpuTime is the CPU time this process has consumed so far.
+func cpuTime() time.Duration {
+	var ru syscall.Rusage
+	if syscall.Getrusage(syscall.RUSAGE_SELF, &ru) != nil {
+		return 0
+	}
+	return time.Duration(ru.Utime.Nano() + ru.Stime.Nano())
+}
+
 // Run executes PreludeJS and then src in a fresh runtime. timeout bounds the
-// run (0 = 5 s); maxCallStack bounds the call depth (0 = 2000).
+// CPU time of the run (0 = 20 s; the programs are a few thousand evaluation steps,
+// so only a genuine endless loop gets there): the wall clock merely schedules the
+// look at the CPU clock, so that a loaded machine cannot turn a slow run into a
+// verdict. maxCallStack bounds the call depth (0 = 2000).
 func Run(src string, timeout time.Duration, maxCallStack int) (res Result) {
 	defer func() {
 		if p := recover(); p != nil {
@@ -39,7 +52,7 @@ func Run(src string, timeout time.Duration, maxCallStack int) (res Result) {
 		}
 	}()
 	if timeout <= 0 {
-		timeout = 5 * time.Second
+		timeout = 20 * time.Second
 	}
 	if maxCallStack <= 0 {
 		maxCallStack = 2000
@@ -53,9 +66,27 @@ func Run(src string, timeout time.Duration, maxCallStack int) (res Result) {
 	describeV := vm.Get("describe")
 	describe, _ := goja.AssertFunction(describeV)
 	logV := vm.Get("__log").(*goja.Object)
-	timer := time.AfterFunc(timeout, func() { vm.Interrupt("timeout") })
+	cpu0 := cpuTime()
+	stop, stopped := make(chan struct{}), make(chan struct{})
+	go func() {
+		defer close(stopped)
+		tick := time.NewTicker(500 * time.Millisecond)
+		defer tick.Stop()
+		for {
+			select {
+			case <-stop:
+				return
+			case <-tick.C:
+				if cpuTime()-cpu0 > timeout {
+					vm.Interrupt("timeout")
+					return
+				}
+			}
+		}
+	}()
 	v, err := vm.RunString(src)
-	timer.Stop()
+	close(stop)
+	<-stopped
 	vm.ClearInterrupt()
 	n := int(logV.Get("length").ToInteger())
 	for i := 0; i < n; i++ {
